@@ -325,6 +325,9 @@ def run(repo, chk):
                 break
         chk.expect(bad is None and n > 0, 'C08.L4', f'eval_expr[{armname}]::origin before advance', bad or f'{n} paths', GEN)
 
+    from . import c04
+    c04._bookkeeping(repo, chk, 'C08.L4')
+
     # ---------------- L5 -------------------------------------------------------------------
     n = 0
     l5_bad = False
